@@ -115,6 +115,23 @@ def gen_text(I, n, tag='c', classes=(1,), exclude=(), lenvar=False, tokens=()):
     return Txt(chars)
 
 
+def gen_tmpl(I, tmpl, tag='t', exclude=(ESC,)):
+    """sentence template: concrete characters with a few symbolic positions.  '?' is a symbolic 1-byte character
+    (the whole class 0..0x7f minus `exclude`, so it may turn into a space, '-', CR or LF and change the word / line
+    structure), U+00BF (inverted '?') a symbolic 2-byte character, U+203D a symbolic 3-byte character."""
+    chars = []
+    for k, ch in enumerate(tmpl):
+        if ch == '?':
+            chars.append((I.sym_char('%s%d' % (tag, k), 0, 0x7f, exclude=exclude), 1))
+        elif ch == '\u00bf':
+            chars.append((I.sym_char('%s%d' % (tag, k), *CLASS_RANGE[2]), 2))
+        elif ch == '\u203d':
+            chars.append((I.sym_char('%s%d' % (tag, k), *CLASS_RANGE[3]), 3))
+        else:
+            chars.append((ord(ch), utf8len(ord(ch))))
+    return Txt(chars)
+
+
 def gen_alpha(I, n, alphabet, lenvar=False):
     """alphabet text: each position forks over a stated finite alphabet of characters / tokens"""
     if lenvar:
